@@ -88,8 +88,8 @@ static void c05_child(const void *job, size_t n) {
  * in again (node new) must see first is not prescribed: continuing and restarting at 1 are both accepted. */
 #include "../fw/simbus.h"
 #include "../fw/cfg.h"
-enum { H_PING_M, H_PING_O, H_PING_L, H_POINT, H_SPEED, H_RESET, H_LOST, H_NEW, H_BURST, H_ANSWER, H_OCC, H_TICK, H_LONG, H_N };
-static const char *HN[H_N] = {"ping(master)", "ping(oc1)", "ping(lc1)", "switch_point(point1)", "set_train_speed(train1)", "sys_reset", "lost(lc1)", "new(lc1)", "burst-to-oc1(unanswered)", "answer(oc1)", "occ-report(master,SecAck)", "tick 2.5s", "long-message(oc1, larger than the packet capacity)"};
+enum { H_PING_M, H_PING_O, H_PING_L, H_POINT, H_SPEED, H_RESET, H_LOST, H_NEW, H_BURST, H_ANSWER, H_OCC, H_TICK, H_LONG, H_UPSEQ1, H_N };
+static const char *HN[H_N] = {"ping(master)", "ping(oc1)", "ping(lc1)", "switch_point(point1)", "set_train_speed(train1)", "sys_reset", "lost(lc1)", "new(lc1)", "burst-to-oc1(unanswered)", "answer(oc1)", "occ-report(master,SecAck)", "tick 2.5s", "long-message(oc1, larger than the packet capacity)", "uplink-from-oc1-numbered-1(out of sequence)"};
 static const char *hevname(int e) { return HN[e]; }
 static int hold_pings; static int h_hook(int node, const rc_msg_t *m) { return hold_pings && node == 1 && m->type == MSG_SYS_PING; }
 static int lc1_present = 1, held_outstanding;
@@ -123,6 +123,7 @@ static int h_apply(int ev) {
 	case H_ANSWER: { if (!held_outstanding) return 0; uint8_t d = 0; held_outstanding--; sb_send(1, MSG_SYS_PONG, &d, 1); vs_point(); break; }
 	case H_OCC: { uint8_t d = 1; sb_send(0, MSG_BM_OCC, &d, 1); vs_point(); break; }
 	case H_TICK: vs_sleep_us(2500000); break;
+	case H_UPSEQ1: { uint8_t d[3] = {0, 0, 0}; sb_send_from(SB.n[1].addr, 1, MSG_BM_CONFIDENCE, d, 3); vs_point(); break; }      /* e.g. the node's message 255 was lost and it wrapped, or its first message is repeated */
 	case H_LONG: { t_bidib_node_address a = {1, 0, 0}; static uint8_t str[100]; memset(str, 'x', sizeof str); bidib_send_string_set(a, 0, 1, 100, str, 0); break; }     /* 106 bytes: more than the default packet capacity of 64 */
 	}
 	hx_quiesce(); bidib_flush(); hx_quiesce();
